@@ -21,7 +21,7 @@ fn dispatch(name: &str, args: &[&str]) -> String {
 }
 
 fn main() {
-    std::panic::set_hook(Box::new(|_| {}));
+    if std::env::var("HV_PANIC").is_err() { std::panic::set_hook(Box::new(|_| {})); }
     let stdin = std::io::stdin();
     let stdout = std::io::stdout();
     let mut out = std::io::BufWriter::new(stdout.lock());
